@@ -30,6 +30,74 @@ def order_law_criteria(chk):
                 return
 
 
+def order_law_zoo(chk, rng, rounds):
+    """one class with formulas of every function family: each cell answers on a long-lived executor, in any order and when asked again, what it answers
+    alone on a fresh executor - no helper of the runtime may keep something from one evaluation that changes another (a rounding mode, a search
+    position, a compiled criterion, a decimal context ...); get_cells and get_sheet agree cell by cell"""
+    m = realcode.mods()
+    Cell = m['Cell']
+    data = [[7.2, 'Banana', 10, 1], [2.55, 'a', 20, True], [-7.5, 'an*', 30, 1.0], [1234.5678, 'Hello World', 40, 0], [0.125, 'x', 50, False], [15, 'ana', 60, '1']]
+    formulas = ['=ROUND(A1,0)', '=ROUNDUP(A1,0)', '=ROUNDDOWN(A1,0)', '=ROUND(A2,1)', '=ROUNDUP(A2,1)', '=ROUNDDOWN(A2,1)', '=ROUND(A3,0)', '=ROUNDUP(A3,0)',
+                '=ROUNDDOWN(A3,0)', '=ROUND(A4,-2)', '=ROUNDUP(A4,2)', '=ROUNDDOWN(A4,2)', '=ROUND(A5,2)', '=ROUNDDOWN(A5,2)', '=ROUNDUP(A5,2)', '=A2%', '=ROUND(A6%,1)',
+                '=SEARCH(B2,B1)', '=SEARCH(B2,B1,3)', '=SEARCH(B2,B1,SEARCH(B2,B1)+1)', '=SEARCH(B3,B1)', '=SEARCH(B6,B1,2)', '=SEARCH("o",B4)', '=SEARCH("O",B4,6)',
+                '=LEFT(B4,5)', '=RIGHT(B4,5)', '=MID(B4,7,3)', '=CONCATENATE(B1,B5,A1)', '=B1&B2', '=VALUE("12.5")',
+                '=MATCH(30,C1:C6,0)', '=MATCH(35,C1:C6,1)', '=XMATCH(35,C1:C6,1)', '=XMATCH(35,C1:C6,-1,2)', '=XMATCH(35,C1:C6,1,2)', '=XMATCH(30,C1:C6,0,-1)',
+                '=VLOOKUP(40,C1:D6,2,FALSE)', '=INDEX(C1:D6,2,1)', '=INDEX(B1:B6,MATCH(50,C1:C6,0))',
+                '=COUNTIFS(D1:D6,1)', '=COUNTIFS(D1:D6,TRUE)', '=COUNTIFS(D1:D6,0)', '=COUNTIFS(D1:D6,FALSE)', '=SUMIF(D1:D6,1,C1:C6)', '=SUMIF(D1:D6,TRUE,C1:C6)',
+                '=SUMIFS(C1:C6,D1:D6,"1")', '=AVERAGEIFS(C1:C6,C1:C6,">25")', '=COUNTIFS(B1:B6,"an*")', '=COUNTIFS(B1:B6,"a")', '=SUMIF(C1:C6,">=30")',
+                '=SUM(A1:A6)', '=AVERAGE(C1:C6)', '=MIN(A1:A6)', '=MAX(A1:C6)', '=COUNT(A1:D6)', '=COUNTBLANK(A1:E6)', '=AND(D1:D3)', '=OR(D4:D5)',
+                '=DATE(2024,2,30)', '=DAY(DATE(2024,3,0))', '=MONTH(EDATE(DATE(2024,1,31),1))', '=DAY(EOMONTH(DATE(2023,2,1),0))', '=DATEDIF(DATE(2020,1,31),DATE(2024,3,1),"YM")',
+                '=DATEDIF(DATE(2020,1,31),DATE(2024,3,1),"D")', '=NETWORKDAYS(DATE(2024,1,1),DATE(2024,1,31))', '=YEAR(DATE(1999,14,1))',
+                '=IF(A1>7,"big","small")', '=IFS(A1>8,1,A1>7,2)', '=IFERROR(1/D4,"div")', '=IFERROR(SEARCH("zz",B1),0)', '=IF(D2,1,2)', '=A1>A2', '=B2="A"', '=C1<>D1',
+                '=-A1^1' if False else '=-A1+A2*2', '=(A1+A2)%', '=ADDRESS(2,28)', '=COLUMN(C1)']
+    rows = [list(r) + [None] * 2 for r in data]
+    while len(rows) < len(formulas):
+        rows.append([None] * 6)
+    for i, f in enumerate(formulas):
+        rows[i][5] = f
+    try:
+        cls = realcode.load_class(realcode.translate([('S', rows)]))
+    except Exception as e:  # noqa
+        chk.violation({'why': 'a workbook of supported formulas does not translate: %r' % (e,), 'stream': 'zoo-order'})
+        return
+    cells = [(5, i) for i in range(len(formulas))]
+    ref = {t: core.outcome(lambda t=t: realcode.executor_for(cls).get_cell(Cell(0, *t)).value) for t in cells}
+
+    def bad(t, got, how, order):
+        chk.violation({'why': 'the value of a cell depends on what was evaluated before on the same executor (' + how + ')', 'formula': formulas[t[1]],
+                       'before': [formulas[r] for _, r in order][-6:], 'impl': got, 'alone': ref[t], 'stream': 'zoo-order'})
+    for k in range(rounds):
+        ex = realcode.executor_for(cls)
+        perm = cells[:]
+        rng.shuffle(perm)
+        if k == 0:
+            perm = cells[:]
+        elif k == 1:
+            perm = cells[::-1]
+        perm = perm + perm[:len(perm) // 2]
+        for i, t in enumerate(perm):
+            got = core.outcome(lambda: ex.get_cell(Cell(0, *t)).value)
+            chk.count('law:zoo-order')
+            if got != ref[t]:
+                return bad(t, got, 'get_cell', perm[:i])
+        if k % 2 == 0:
+            res = ex.get_cells([Cell(0, *t) for t in perm[:40]])
+            for t, cell in zip(perm[:40], res):
+                got = core.outcome(lambda: cell.value)
+                if got != ref[t] and not ref[t].startswith('E'):
+                    return bad(t, got, 'get_cells', perm[:40])
+    # pairs: every cell right after every other cell on a fresh executor (a sample of the pairs per run, the rounding family always in full)
+    pairs = [(a, b) for a in cells for b in cells if a != b]
+    fam = [(a, b) for a, b in pairs if a[1] < 17 and b[1] < 17]
+    for a, b in fam + rng.sample(pairs, min(len(pairs), 150 * rounds)):
+        ex = realcode.executor_for(cls)
+        core.outcome(lambda: ex.get_cell(Cell(0, *a)).value)
+        got = core.outcome(lambda: ex.get_cell(Cell(0, *b)).value)
+        chk.count('law:zoo-pairs')
+        if got != ref[b]:
+            return bad(b, got, 'right after one other cell', [a])
+
+
 def answers(ops, outs):
     """per-query answers keyed by (kind, target) so that schedules can be compared after permutation"""
     res = {}
@@ -160,6 +228,7 @@ def run(tier, seed):
                                        'grid': core.outcome(lambda: cell.value), 'single': single, 'stream': 'grid', 'history': repr(setup)[:800]})
     chk.judge('schedules', cases, sample_cap=3)
     order_law_criteria(chk)
+    order_law_zoo(chk, rng, 6 if tier == "quick" else 60)
     return chk.finish()
 
 
